@@ -1,10 +1,14 @@
 """C07 — vcheck configuration (PROP) and MANIFEST claim (CHECK)."""
 PROP = {
  'module': 'UmProps.C07',
- 'gen_modules': ['CoordTables', 'ChunkTables', 'Consts'],
+ 'gen_modules': ['CoordTables', 'ChunkTables', 'Consts', 'MetaConsts'],
  'streams': [
   {'name': 'coordinator', 'harness': 'umh_coordinator', 'driver': 'coordinator',
    'timeout': {'quick': 900, 'thorough': 3000}},
+  # overlapping pushes to one proxy ("never replaced by an older version" under concurrency): the interleaving
+  # model of MetaManager::set_meta and its correspondence stream, shared with C05 (C07_overlapping_pushes)
+  {'name': 'setmeta_conc', 'harness': 'umh_setmeta_conc', 'driver': 'setmeta_conc',
+   'timeout': {'quick': 300, 'thorough': 1500}},
  ],
  'assumptions': [
   'the broker-side hypotheses of C07_coherent / C07_convergence / C07_commit_once (EpochVersioning, CommitInv, views '
